@@ -90,6 +90,10 @@ pub enum Call {
     /// a call that the library rejects: the thread's projection asked to project relative to face id >= 12
     /// (forward or inverse); whatever it returns, it must leave nothing behind
     Rejected(u8, bool),
+    /// a5::projections::authalic::AuthalicProjection: forward (geodetic -> authalic) or inverse of a latitude in radians
+    Authalic(f64, bool),
+    /// the thread's dodecahedron projection: forward of the sphere point (theta, phi) relative to a face
+    Forward(f64, f64, u8),
 }
 
 fn bits(p: &LonLat) -> String {
@@ -122,6 +126,16 @@ pub fn exec(c: &Call) -> String {
             } else {
                 format!("{:?}", d.inverse(Face::new(0.1, 0.2), *origin).map(|s| (s.theta().get().to_bits(), s.phi().get().to_bits())))
             }
+        }
+        Call::Authalic(x, inverse) => {
+            let p = a5::projections::authalic::AuthalicProjection;
+            let a = a5::coordinate_systems::Radians::new_unchecked(*x);
+            format!("{:016x}", if *inverse { p.inverse(a) } else { p.forward(a) }.get().to_bits())
+        }
+        Call::Forward(t, ph, origin) => {
+            let d = DodecahedronProjection::get_thread_local();
+            let sp = a5::coordinate_systems::Spherical::new(a5::coordinate_systems::Radians::new_unchecked(*t), a5::coordinate_systems::Radians::new_unchecked(*ph));
+            format!("{:?}", d.forward(sp, *origin).map(|f| (f.x().to_bits(), f.y().to_bits())))
         }
         Call::FromLonLat(lon, lat) => {
             let sp = a5::core::coordinate_transforms::from_lon_lat(LonLat::new(*lon, *lat));
@@ -269,7 +283,7 @@ pub fn random_call(rng: &mut Rng) -> Call {
 
 pub fn search_c13(rng: &mut Rng, thorough: bool) -> SearchResult {
     let mut r = SearchResult::default();
-    r.rule = "random sequences of public calls (lookups, centres, boundaries, hierarchy, compaction, metadata, curve functions; with correlated runs: seam-hugging points after a call on the neighbouring face, the same curve position under different orientations / quintants / faces back to back, a cell description and copies differing in one field (face, segment, resolution) through several entry points back to back, compaction of lists containing non-canonical words): each result, rendered bit-exactly, is compared with the same call executed as the FIRST call of a fresh thread; then N threads run random sequences concurrently and every result is compared with the single-threaded reference. non-trivial = calls that touch the projection memo (lookup / centre / boundary)".into();
+    r.rule = "random sequences of public calls (lookups, centres, boundaries, hierarchy, compaction, metadata, curve functions; with correlated runs: seam-hugging points after a call on the neighbouring face, the same curve position under different orientations / quintants / faces back to back, a cell description and copies differing in one field (face, segment, resolution) through several entry points back to back, compaction of lists containing non-canonical words, lookups of points lying exactly on a reported outline after ordinary lookups nearby, IDs with equal leading bits at resolution 0 and above, a latitude converted in both directions, one point projected relative to two faces): each result, rendered bit-exactly, is compared with the same call executed as the FIRST call of a fresh thread; then N threads run random sequences concurrently and every result is compared with the single-threaded reference. non-trivial = calls that touch the projection memo (lookup / centre / boundary)".into();
     let seqs = if thorough { 100 } else { 20 };
     let len = if thorough { 150 } else { 90 };
     for _ in 0..seqs {
@@ -295,6 +309,44 @@ pub fn search_c13(rng: &mut Rng, thorough: bool) -> SearchResult {
                         calls.push(Call::Lookup(ll.longitude(), ll.latitude(), rng.range_i(0, 4) as i32));
                     }
                 }
+            } else if rng.chance(1, 12) {
+                // points lying exactly on a cell's reported outline: no candidate contains them strictly, so the answer
+                // comes from the ranking of the rejected candidates; asked after ordinary lookups nearby, whose own
+                // rejected candidates must play no part
+                let res = rng.range_i(1, 14) as i32;
+                let c = valid_cell(rng, res);
+                if let Ok(ring) = cell_to_boundary(c, None) {
+                    let ctr = a5::cell_to_lonlat(c).unwrap_or(LonLat::new(0.0, 0.0));
+                    for _ in 0..3 {
+                        let a = &ring[rng.below(ring.len() as u64) as usize];
+                        let f = 0.6 + 0.8 * rng.unit();
+                        calls.push(Call::Lookup(ctr.longitude() + f * (a.longitude() - ctr.longitude()), (ctr.latitude() + f * (a.latitude() - ctr.latitude())).clamp(-90.0, 90.0), res));
+                        let b = &ring[rng.below(ring.len() as u64) as usize];
+                        calls.push(Call::Lookup(b.longitude(), b.latitude(), res));
+                    }
+                }
+            } else if rng.chance(1, 14) {
+                // IDs whose leading 6 bits are equal but mean different things (a face at resolution 0, 5*face+quintant
+                // above), and a latitude converted in both directions, and one sphere point projected relative to its two
+                // nearest faces: back to back, in either order
+                let t = rng.below(12);
+                let b0 = a5::get_res0_cells().unwrap()[t as usize];
+                let res = rng.range_i(1, 29) as i32;
+                let deep = (b0 & (63u64 << 58)) | (valid_cell(rng, res) & ((1u64 << 58) - 1));
+                let pair = if rng.chance(1, 2) { [b0, deep] } else { [deep, b0] };
+                for id in pair {
+                    calls.push(match rng.below(3) { 0 => Call::Parent(id, None), 1 => Call::Children(id, None), _ => Call::Centre(id) });
+                }
+                let x = (rng.unit() - 0.5) * 3.1;
+                let inv_first = rng.chance(1, 2);
+                calls.push(Call::Authalic(x, inv_first));
+                calls.push(Call::Authalic(x, !inv_first));
+                calls.push(Call::Authalic(x, inv_first));
+                let (i, j) = crate::geocorr::adjacent_faces(rng);
+                let (th, ph) = crate::geocorr::edge_point(i, j, (rng.unit() - 0.5) * 0.5, 0.05 * rng.unit());
+                calls.push(Call::Forward(th, ph, i as u8));
+                calls.push(Call::Forward(th, ph, j as u8));
+                calls.push(Call::Forward(th, ph, i as u8));
             } else if rng.chance(1, 10) {
                 // a rejected call followed by ordinary ones: an error path must not leave a flag, a lock or a
                 // half-filled slot behind
@@ -360,7 +412,7 @@ pub fn search_c13(rng: &mut Rng, thorough: bool) -> SearchResult {
             let c2 = c.clone();
             let fresh = thread::spawn(move || exec(&c2)).join().unwrap();
             r.evaluations += 1;
-            if matches!(c, Call::Lookup(..) | Call::Centre(..) | Call::Boundary(..) | Call::Nearest(..) | Call::Anchor(..) | Call::IjToS(..) | Call::Contains(..) | Call::FromLonLat(..) | Call::Rejected(..)) {
+            if matches!(c, Call::Lookup(..) | Call::Centre(..) | Call::Boundary(..) | Call::Nearest(..) | Call::Anchor(..) | Call::IjToS(..) | Call::Contains(..) | Call::FromLonLat(..) | Call::Rejected(..) | Call::Authalic(..) | Call::Forward(..)) {
                 r.nontrivial += 1;
             }
             if &fresh != want {
